@@ -108,8 +108,11 @@ MPats == {Call(Id("f"), <<X, X>>), Call(Id("f"), <<X, Y>>), Call(Id("f"), <<X, C
 MQMenu == {Call(Id("h"), <<X>>), Call(Id("h"), <<Y, X>>), Call(Id("h"), <<I>>), Call(Id("h"), <<Dots("d1"), X>>),
            Call(Id("h"), <<Id("x")>>), Sel(I, "k"), Id("b")}
 MPairs == {<<p, q>> \in MPats \X MQMenu : UsesOK(p, q)}
+\* (the last four: compound code in which an identifier is spelled like a declared
+\*  metavariable - in the target it is an ordinary identifier)
 MFill == {Id("a"), Id("b"), Id("x"), Id("y"), Lit("1"), Call(Id("g"), <<Id("a")>>), Call(Id("g"), <<Id("b")>>),
-          Bin("+", Id("a"), Id("b")), Bin("+", Id("b"), Id("a")), Sel(Id("a"), "m"), Call(Id("g"), <<Call(Id("g"), <<Id("a")>>)>>)}
+          Bin("+", Id("a"), Id("b")), Bin("+", Id("b"), Id("a")), Sel(Id("a"), "m"), Call(Id("g"), <<Call(Id("g"), <<Id("a")>>)>>),
+          Sel(Id("x"), "m"), Sel(Id("y"), "m"), Call(Id("g"), <<Id("x")>>), Call(Id("g"), <<Id("i")>>)}
 MSubjects == {Call(Id("f"), <<t, u>>) : t, u \in MFill}
       \cup {Call(Id("f"), <<t>>) : t \in MFill}
       \cup {Call(Id("f"), <<t, u, w>>) : t, u, w \in {Id("a"), Id("b"), Call(Id("g"), <<Id("a")>>)}}
